@@ -21,19 +21,20 @@ import threading
 
 from harness.common import fakeproc
 from harness.common.shrink import ddmin
-from harness.props import c16_facts
+from harness.props import c16_facts, c16_rec
 
 PROP = "C16"
-DRIVER_MODULES = ["PsutilModel.Model.C16Gen", "PsutilModel.Spec.C16"]
+DRIVER_MODULES = ["PsutilModel.Model.C16Gen", "PsutilModel.Spec.C16", "PsutilModel.Model.C16RecGen", "PsutilModel.Spec.C16Rec"]
 NEEDS_EXT = True
 TRUSTED = [
     "C16 world model: contents are abstracted to version numbers (decoding is C06/C13's business); /proc/<pid>/stat is always readable; a gone process never comes back and a zombie never revives (PID reuse: C01/C02); a zombie's smaps and cmdline are empty files (measured, DESIGN A.8); smaps_rollup does not exist in the modelled world (the documented fallback to smaps is what is exercised)",
     "C16 concurrent models: one object's `_cache` (Model/C16Conc.lean, instantiated for the front-end object with 4 activations and for the platform object with 3, incl. the pre-repair wrapper shapes) and both `_cache` attributes together (Model/C16Conc2.lean: front-end wrapper over platform wrapper, activation/deactivation order from the facts actOrder/deactOrder, repaired wrapper shape only, the re-entrant lock with every thread's stack of open levels: nested blocks and as_dict() = acquire · test · calls · exit are runs of this model; fact lockReentrant); methods reading two sources and several Process objects at once are not steps of these models (several objects: only the lock-order remark that no library code takes a second object's lock while holding one); CPython executes each of LOAD_ATTR / BINARY_SUBSCR / STORE_SUBSCR / STORE_ATTR / DELETE_ATTR atomically under the GIL (free-threaded builds out of scope)",
     "C16 scheduler (harness/props/c16_sched.py): sys.settrace with f_trace_opcodes hands a baton between real threads at the shared-state bytecodes; the schedule space is sampled (quick) or enumerated for one plain call against one enter/exit pair (thorough, one-level programs); for the two-level model the parks of both objects are level-tagged and the schedules are sampled in both tiers (10 families, incl. nested blocks, as_dict() as / inside / against a block, as_dict() in both threads: a thread whose acquire is disabled in the model is simply not granted); in the sequential runs and under this scheduler `Process._lock` is wrapped so that an acquire that would block raises SelfDeadlock instead of hanging the check",
+    "C16 record objects (Model/C16Rec.lean, harness/props/c16_rec.py): a kernel record is a line of non-negative integers (position 1 printed as one of the state letters R S D T I, starttime constant within one history, the process alive and stat readable); the dict built by _parse_stat_file is modelled as an association list and a platform method as the list of things it does to the dict object it is handed (translator: subscript / .get / .pop / del / item store of a constant / .clear(); anything else is an unknown token that fails the obligation rcfg_good); _psposix.get_terminal_map is replaced (every device number has a name) so that terminal() can be decoded; cpu_percent() is compared by outcome kind only (its value depends on the clock); create_time() is no route (kept for the object's lifetime); the failing-input oracle of this family is the real method's own answer OUTSIDE any block on a fresh object over the same files (no translator fact involved), the Lean specification/model are compared on top of it",
     "C16 bounded-pre-emption explorer (harness/props/c16_preempt.py): model-independent; every bytecode of memoize_when_activated's closures, Process.oneshot and oneshot_enter/exit that is not frame-local (FRAME_LOCAL_OPS: LOAD_FAST, POP_TOP, jumps …: invisible to and blind for other threads, so pre-empting before one equals pre-empting before the next visible bytecode) is a scheduling point; 25 programs (explicit blocks, as_dict as the owner, nested block, exit by exception, callers on another source, methods crossing both cache levels, three threads, and — with `Process._lock` replaced by a cooperative stand-in that parks a thread whose acquire fails — as_dict() against another thread's open block, as_dict() / oneshot() / psutil.process_iter(attrs) from two threads on ONE shared Process object, three threads with two as_dict(); a state in which every unfinished thread waits for the lock is reported as a deadlock); schedules with <= 2 pre-emptions (sampled in quick; all in thorough for the original programs, capped per new program; all during a failing-input search) and the 3-pre-emption schedules where a plain call straddles two program items of the block owner; oracle = the property's clauses on content versions (no spurious error; in-block value read in that block; plain value from the call's duration or an overlapping block)",
 ]
 MANIFEST = {
-    "level_text": "Machine-checked Lean 4 proofs over a model of memoize_when_activated / oneshot() / as_dict(): for EVERY sequential history (enter, exit normally or by exception, nested blocks, calls, content changes, EACCES, zombie, gone, as_dict anywhere) the model refines a specification that freezes the first successful read of each block-cached source (C16_value_at_first_read), each of stat/status/smaps is read at most once per outermost block (C16_read_at_most_once), the next call after the block is fresh (C16_fresh_after_exit), nesting is a no-op (C16_nested_noop), as_dict validates before reading, returns exactly the requested keys and applies the AccessDenied/ZombieProcess/NoSuchProcess/NotImplementedError policy (C16_as_dict_*); and over ALL interleavings of any number of threads of a bytecode-granularity step model no AttributeError/KeyError escapes (C16_no_spurious_error) and every returned value was the source's content at an instant between the activation of the block whose cache served it (or the start of the call) and the return (C16_value_valid_at_some_moment). The same two theorems are proved for a model of BOTH cache levels together (front-end `_cache` over `_proc._cache`, activated in the order oneshot() does it, with the re-entrant lock and every thread's nested levels as steps — nested blocks and as_dict() from any thread are runs of this model: C16_no_spurious_error_two_level, C16_value_valid_at_some_moment_two_level, C16_lock_protocol_two_level, C16_nested_noop_two_level: a re-entered level never activates or deactivates anything, C16_no_deadlock_two_level: the lock holder always has an own enabled step that brings it strictly closer to the release, so another thread's as_dict()/oneshot() on the same object only waits for a thread that can finish by itself), C16_reads_characterised states exactly which reads go through the block cache (cached routines: at most once) and which are fresh by design (identity probe of ppid(), zombie probe), and C16_as_dict_per_name_policy the per-name exception policy. The literal cross-thread clause (valid at a moment of the call itself) is false of oneshot's design and is a recorded finding with a replayed schedule; so is the stability of the owner's first-read value against a concurrent plain caller's later store (C16_owner_first_read_counterexample). Both findings have one cause (the block's dict is shared with plain callers of other threads); for the candidate repair that serves the cache to the activating thread only (fact cacheOwnerOnly, false today; fixes/C16-cache-owner-only.diff) both clauses are proved at full strength (C16_value_valid_Literal_two_level_owner_only, C16_entries_write_once_owner_only). The model is tied to the code by translator facts (decorator placement, activate/deactivate lists and order, nesting test, finally, wrapper shape incl. owner tag, RLock, method→file map, as_dict policy) feeding the proof obligation cfg_good, and by differential runs of the real Process over a fake procfs with per-file open counting and of real threads under a deterministic bytecode scheduler.",
+    "level_text": "Machine-checked Lean 4 proofs over a model of memoize_when_activated / oneshot() / as_dict(): for EVERY sequential history (enter, exit normally or by exception, nested blocks, calls, content changes, EACCES, zombie, gone, as_dict anywhere) the model refines a specification that freezes the first successful read of each block-cached source (C16_value_at_first_read), each of stat/status/smaps is read at most once per outermost block (C16_read_at_most_once), the next call after the block is fresh (C16_fresh_after_exit), nesting is a no-op (C16_nested_noop), as_dict validates before reading, returns exactly the requested keys and applies the AccessDenied/ZombieProcess/NoSuchProcess/NotImplementedError policy (C16_as_dict_*); and over ALL interleavings of any number of threads of a bytecode-granularity step model no AttributeError/KeyError escapes (C16_no_spurious_error) and every returned value was the source's content at an instant between the activation of the block whose cache served it (or the start of the call) and the return (C16_value_valid_at_some_moment). The same two theorems are proved for a model of BOTH cache levels together (front-end `_cache` over `_proc._cache`, activated in the order oneshot() does it, with the re-entrant lock and every thread's nested levels as steps — nested blocks and as_dict() from any thread are runs of this model: C16_no_spurious_error_two_level, C16_value_valid_at_some_moment_two_level, C16_lock_protocol_two_level, C16_nested_noop_two_level: a re-entered level never activates or deactivates anything, C16_no_deadlock_two_level: the lock holder always has an own enabled step that brings it strictly closer to the release, so another thread's as_dict()/oneshot() on the same object only waits for a thread that can finish by itself), C16_reads_characterised states exactly which reads go through the block cache (cached routines: at most once) and which are fresh by design (identity probe of ppid(), zombie probe), and C16_as_dict_per_name_policy the per-name exception policy. The literal cross-thread clause (valid at a moment of the call itself) is false of oneshot's design and is a recorded finding with a replayed schedule; so is the stability of the owner's first-read value against a concurrent plain caller's later store (C16_owner_first_read_counterexample). Both findings have one cause (the block's dict is shared with plain callers of other threads); for the candidate repair that serves the cache to the activating thread only (fact cacheOwnerOnly, false today; fixes/C16-cache-owner-only.diff) both clauses are proved at full strength (C16_value_valid_Literal_two_level_owner_only, C16_entries_write_once_owner_only). Records are objects: for kernel records with an independent value in every position and every public route to the dict of _parse_stat_file (through the front-end memoisation or around it, as cpu_percent() -> _proc.cpu_times()), in every order and every history, each method returns inside a block what it returns outside the block on the record first read in the block (C16_record_answers_at_first_read, C16_record_call_after_any_call) provided no platform method changes the dict it is handed — the translator-fed obligation rcfg_good (facts helperReturns, statParse, recConsumers, recRoutes); a popping / overwriting consumer breaks it (C16_record_mutating_consumer_counterexample). The model is tied to the code by translator facts (decorator placement, activate/deactivate lists and order, nesting test, finally, wrapper shape incl. owner tag, RLock, method→file map, as_dict policy) feeding the proof obligation cfg_good, and by differential runs of the real Process over a fake procfs with per-file open counting and of real threads under a deterministic bytecode scheduler.",
     "level_note": "Partial w.r.t. threads: the theorems cover every interleaving of the MODELS' step relations (one level; two levels); the implementation is exercised on sampled (quick) / enumerated one-call-vs-one-block (thorough, one level) schedules under the model-following scheduler and on bounded-pre-emption schedules of 25 programs under the model-independent explorer (thorough: complete for the three original programs on both cache levels, a recorded budget of 600 plans for each other program). No deadlock: proved for ONE object's lock; across several objects the library never takes a second Process object's lock while holding one (as_dict/process_iter/__str__ are the only internal users of oneshot()), user code nesting blocks of different objects in opposite orders is outside the property. Trusted: Lean kernel + {propext, Classical.choice, Quot.sound}; translator; harness; GIL atomicity of single bytecodes; world model as listed.",
     "technique": "Lean 4 refinement proof by simulation over histories + invariant proof over a small-step interleaving semantics + translator-fed proof obligation + differential correspondence (fake procfs with open counting; settrace bytecode scheduler)",
     "design_ref": "DESIGN.md §5 C16",
@@ -43,7 +44,12 @@ ASSUMPTIONS = [
     "PYTHONHASHSEED fixed: the iteration order of set(attrs) computed by the harness is the one as_dict sees",
 ]
 
-facts = c16_facts.facts
+
+
+def facts(snap, F):
+    c16_facts.facts(snap, F)
+    c16_rec.facts(snap, F)          # record objects: helperReturns, statParse, recConsumers, recRoutes
+
 
 SRCS = ["stat", "status", "smaps", "statm", "cmdline", "io", "smaps_rollup"]      # order = Driver/C16.lean allSrc
 BLOCK_CACHED = ["stat", "status", "smaps"]
@@ -140,6 +146,7 @@ class Impl:
         self.valid = list(self.ps._as_dict_attrnames)      # iteration order of the module's set
         self.p = None
         self.dirty = set()
+        self.stat_line = None          # c16_rec: a kernel record with an independent value in every position
         self.reset()
 
     def close(self):
@@ -156,6 +163,8 @@ class Impl:
     def _content(self, src):
         v = self.ver[src]
         z = self.state == "zombie"
+        if src == "stat" and self.stat_line is not None and not z:
+            return c16_rec.render_stat(PID, self.stat_line)
         if src == "stat":
             f = ["0"] * 50
             f[0] = "Z" if z else "S"
@@ -1090,6 +1099,9 @@ def correspond(ctx, res):
                          sample={"family": tag, "history": h, "impl_last": rows[-1][1]} if (a + j) in (0, 3, 6, 9, 12) else None)
                 compare(rows, res, tag)
         all_names_runs(ctx, impl, res)
+        t_rec = time.time()
+        c16_rec.correspond_records(ctx, impl, res)
+        phase["records"] = round(time.time() - t_rec, 1)
         res.count("probe_opens_total", impl.total_probes + impl.probes)
         res.exhaustive = ("all %d well-nested histories of length <= %d over {enter, exit, exit-by-exception, name(), "
                           "ppid(), new stat content}; as_dict(attrs) for all %d combinations of {every %s of the universe %s} x "
@@ -1098,6 +1110,8 @@ def correspond(ctx, res):
                           "schedules are samples"
                           % (n_exh, maxlen, n_enum, "ordered arrangement" if ctx.tier == "thorough" else "subset",
                              ENUM_UNIVERSE, NONCOLL))
+        if res.extra.get("rec_exhaustive"):
+            res.exhaustive += "; records: " + res.extra["rec_exhaustive"]
         res.extra["driver_lines"] = total_lines
     finally:
         impl.close()
@@ -1143,6 +1157,14 @@ def shrink(ctx, d):
         return d
     if "schedule" in d["input"]:
         return c16_sched.shrink(ctx, d)
+    if "rec" in d["input"]:
+        impl = Impl(ctx)
+        try:
+            return c16_rec.shrink(ctx, impl, d)
+        finally:
+            impl.close()
+    if "pair_sweep" in d["input"]:
+        return d
     hist = d["input"].get("history")
     if not hist:
         return d
@@ -1165,6 +1187,17 @@ def replay(ctx, rp, res):
         return c16_preempt.replay(ctx, rp, res)
     if "schedule" in rp["input"]:
         return c16_sched.replay(ctx, rp, res)
+    if "rec" in rp["input"] or "pair_sweep" in rp["input"]:
+        impl = Impl(ctx)
+        try:
+            if "pair_sweep" in rp["input"]:
+                return c16_rec.replay_pair(ctx, impl, rp["input"])
+            r = rp["input"]["rec"]
+            if not isinstance(r, dict):
+                return True
+            return c16_rec.fails(ctx, impl, r["line"], r["hist"])[0]
+        finally:
+            impl.close()
     if "allnames" in rp["input"] or "valid_names" in rp["input"]:
         impl = Impl(ctx)
         try:
